@@ -167,6 +167,15 @@ func checkC11(c *Ctx) {
 	for _, s := range sites {
 		fn := shortFn(s.fn)
 		got := m.Gated(s.call.Call.Args[0])
+		altMax := []string{
+			fmt.Sprintf("select[%s if {NOT (0 == %s)} | call builtin.max((3 * %s), 5000000000) if {(0 == %s)}]", D, D, H, D),
+			fmt.Sprintf("select[%s if {NOT (0 == %s)} | call builtin.max(5000000000, (3 * %s)) if {(0 == %s)}]", D, D, H, D),
+		}
+		for _, a := range altMax {
+			if sortSelect(got) == sortSelect(a) {
+				got = want
+			}
+		}
 		c.check(got == want, "R1", "grace duration in "+fn, s.call,
 			"duration expression is %s; required (DESIGN C11-R1) %s", got, want)
 
